@@ -507,6 +507,9 @@ pub fn parse_cmd(s: &str) -> Option<Cmd> {
         "fwd2" => Cmd::Move(Movement::ForwardChar(2)),
         "insx" => Cmd::SelfInsert(1, 'x'),
         "insab" => Cmd::Insert(1, "ab".to_string()),
+        "bwdword" => Cmd::Move(Movement::BackwardWord(1, rustyline::Word::Emacs)),
+        "killword" => Cmd::Kill(Movement::ForwardWord(1, rustyline::At::AfterEnd, rustyline::Word::Emacs)),
+        "delchar" => Cmd::Kill(Movement::ForwardChar(1)),
         _ => return None,
     })
 }
@@ -765,6 +768,182 @@ pub enum Profile {
     Complete,  // C14: scripted completer, Tab / Shift-Tab runs, aborts, terminators, undo probe
     Kill,      // C06: kill commands with counts and negative arguments, yank / yank-pop probes
     Undo,      // C05: editing commands with the undo probe at arbitrary points
+    Doc,       // C01: every documented key in every encoding, numeric arguments, vi operator x motion x counts, custom bindings
+}
+
+/// every documented non-character key in all its byte encodings (C01)
+const DOC_ESCAPES: &[&str] = &[
+    "1b5b41", "1b4f41", "1b5b42", "1b4f42", "1b5b43", "1b4f43", "1b5b44", "1b4f44", // arrows CSI / SS3
+    "1b5b48", "1b4f48", "1b5b317e", "1b5b377e", // Home
+    "1b5b46", "1b4f46", "1b5b347e", "1b5b387e", // End
+    "1b5b337e", // Delete
+    "1b5b313b3343", "1b5b313b3344", "1b5b313b3943", "1b5b313b3944", "1b1b5b43", "1b1b5b44", "1b1b4f43", "1b1b4f44", // Alt-arrows
+    "1b5b313b3543", "1b5b313b3544", "1b5b3543", "1b5b3544", "1b4f63", "1b4f64", // Ctrl-arrows
+    "1b7f", "1b08", "1b4f4d",
+];
+
+fn doc_emacs_cmd(rng: &mut Rng) -> String {
+    // a command that takes a count
+    match rng.below(10) {
+        0..=4 => format!("{:02x}", *rng.pick(b"\x02\x06\x04\x08\x7f\x0b\x15\x17\x01\x05\x14")),
+        5..=6 => format!("1b{:02x}", *rng.pick(b"bfdBFDulc\x7f")),
+        7 => rng.pick(&["1b5b43", "1b5b44", "1b5b337e", "1b5b313b3343", "1b5b313b3544", "1b4f43"]).to_string(),
+        _ => tok_char(*rng.pick(TEXT)),
+    }
+}
+
+fn doc_emacs_key(rng: &mut Rng, out: &mut Vec<String>) {
+    match rng.below(100) {
+        0..=29 => out.push(tok_char(*rng.pick(TEXT))),
+        30..=47 => out.push(format!(
+            "{:02x}",
+            *rng.pick(b"\x01\x02\x05\x06\x04\x08\x7f\x0b\x15\x17\x14\x01\x02\x06\x0c")
+        )),
+        48..=59 => out.push(format!("1b{:02x}", *rng.pick(b"bfdclutBFDCLUT"))),
+        60..=71 => out.push(rng.pick(DOC_ESCAPES).to_string()),
+        72..=87 => {
+            // numeric argument: M-[-]d1..dk, digits with or without Meta
+            let neg = rng.chance(1, 3);
+            if neg {
+                out.push("1b2d".to_string());
+            }
+            let k = if neg { rng.below(4) } else { 1 + rng.below(5) };
+            for i in 0..k {
+                let d = if rng.chance(1, 3) { b'1' + rng.below(3) as u8 } else { b'0' + rng.below(10) as u8 };
+                if (i == 0 && !neg) || rng.chance(1, 3) {
+                    out.push(format!("1b{:02x}", d));
+                } else {
+                    out.push(format!("{:02x}", d));
+                }
+            }
+            out.push(doc_emacs_cmd(rng));
+        }
+        88..=90 => {
+            out.push("16".to_string());
+            out.push(rng.pick(&["0a", "09", "61", "c3a9", "01", "e6bca2"]).to_string());
+        }
+        91..=92 => {
+            out.push("18".to_string());
+            out.push(rng.pick(&["15", "7f", "07", "61", "62"]).to_string());
+        }
+        93..=94 => out.push(rng.pick(&["0f", "1b67", "0f"]).to_string()),
+        95..=96 => out.push(rng.pick(&["19", "1f", "10", "0e", "1b79"]).to_string()),
+        97 => out.push("03".to_string()),
+        98 => out.push("0a".to_string()),
+        _ => out.push("0d".to_string()),
+    }
+}
+
+fn doc_vi_motion(rng: &mut Rng, out: &mut Vec<String>) {
+    if rng.chance(1, 3) {
+        out.push(format!("{:02x}", b'1' + rng.below(3) as u8));
+        if rng.chance(1, 6) {
+            out.push(format!("{:02x}", b'0' + rng.below(3) as u8));
+        }
+    }
+    if rng.chance(1, 5) {
+        out.push(tok_char(*rng.pick(&['f', 't', 'F', 'T'])));
+        out.push(tok_char(*rng.pick(&['a', 'b', ' ', 'é', ','])));
+    } else {
+        out.push(format!("{:02x}", *rng.pick(b"hlwbeWBE0$^;, jk\x08\x7f")));
+    }
+}
+
+/// one vi command-mode command out of the README table
+fn doc_vi_cmd(rng: &mut Rng, toks: &mut Vec<String>, insert_mode: &mut bool, fast: bool) {
+    if !fast && rng.chance(1, 4) {
+        toks.push(format!("{:02x}", b'1' + rng.below(4) as u8));
+        if rng.chance(1, 5) {
+            toks.push(format!("{:02x}", b'0' + rng.below(10) as u8));
+        }
+    }
+    *insert_mode = false;
+    match rng.below(100) {
+        0..=27 => {
+            if rng.chance(1, 5) {
+                toks.push(tok_char(*rng.pick(&['f', 't', 'F', 'T'])));
+                toks.push(tok_char(*rng.pick(&['a', 'b', ' ', 'é', ','])));
+            } else {
+                toks.push(format!("{:02x}", *rng.pick(b"hlwbeWBE0$^;, \x08\x7f")));
+            }
+        }
+        28..=57 => {
+            let op = *rng.pick(b"dcyddc");
+            toks.push(format!("{:02x}", op));
+            if rng.chance(1, 5) {
+                toks.push(format!("{:02x}", op));
+            } else {
+                doc_vi_motion(rng, toks);
+            }
+            if op == b'c' {
+                *insert_mode = true;
+            }
+        }
+        58..=67 => toks.push(format!("{:02x}", *rng.pick(b"xXDxX\x0b"))),
+        68..=77 => {
+            toks.push(format!("{:02x}", *rng.pick(b"aAiIsSC")));
+            *insert_mode = true;
+        }
+        78..=82 => {
+            toks.push("72".to_string());
+            toks.push(tok_char(*rng.pick(&['a', 'Z', 'é', ' ', '漢'])));
+        }
+        83..=87 => toks.push(rng.pick(DOC_ESCAPES).to_string()),
+        88..=91 => toks.push(rng.pick(&["14", "15", "17", "04", "1b5b337e"]).to_string()),
+        92..=95 => toks.push(rng.pick(&["70", "50", "75", "2e", "6a", "6b", "10", "0e"]).to_string()),
+        96 => toks.push("03".to_string()),
+        _ => toks.push("0d".to_string()),
+    }
+}
+
+fn doc_vi_key(rng: &mut Rng, out: &mut Vec<String>, insert_mode: &mut bool) {
+    if *insert_mode {
+        match rng.below(100) {
+            0..=49 => out.push(tok_char(*rng.pick(TEXT))),
+            50..=74 => {
+                // ESC glued to a command key (with keyseq_timeout = None a lone ESC waits for the next byte)
+                let mut toks = vec![];
+                doc_vi_cmd(rng, &mut toks, insert_mode, true);
+                let first = toks.remove(0);
+                out.push(format!("1b{}", first));
+                out.extend(toks);
+            }
+            75..=82 => out.push(rng.pick(&["7f", "08", "17", "15", "14", "04"]).to_string()),
+            83..=90 => out.push(rng.pick(DOC_ESCAPES).to_string()),
+            91..=93 => {
+                out.push("16".to_string());
+                out.push(rng.pick(&["0a", "61", "c3a9"]).to_string());
+            }
+            94..=95 => out.push("03".to_string()),
+            _ => out.push("0d".to_string()),
+        }
+    } else {
+        let mut toks = vec![];
+        doc_vi_cmd(rng, &mut toks, insert_mode, false);
+        out.extend(toks);
+    }
+}
+
+fn doc_binds(rng: &mut Rng) -> String {
+    let k = 1 + rng.below(3);
+    let mut seen: Vec<&str> = vec![];
+    let mut items = vec![];
+    for _ in 0..k {
+        // C-o, M-g, C-a (a documented key rebound), `z`; two-key: C-o a, C-o C-o, C-x b
+        let key = *rng.pick(&["c79.8", "c103.4", "c65.8", "c122.0", "c79.8+c97.0", "c79.8+c79.8", "c88.8+c98.0"]);
+        let first = key.split('+').next().unwrap();
+        // a key is either bound itself or the prefix of sequences, not both
+        if seen.iter().any(|s| s.split('+').next().unwrap() == first) {
+            continue;
+        }
+        seen.push(key);
+        let cmd = *rng.pick(&[
+            "bol", "eol", "killeol", "killline", "noop", "accept", "newline", "upcase", "fwd2", "bwdword", "killword",
+            "delchar", "undo", "insx",
+        ]);
+        items.push(format!("{}@{}", key, cmd));
+    }
+    items.join(";")
 }
 
 fn kill_keys(rng: &mut Rng, vi: bool, insert_mode: &mut bool, out: &mut Vec<String>) {
@@ -1003,19 +1182,21 @@ pub fn gen_profile(ctx: &GenCtx, tag: &str, profile: Profile, sink: &mut dyn FnM
     let n = match (profile, ctx.thorough) {
         (_, true) => 60_000,
         (Profile::General, false) => 3_000,
+        (Profile::Doc, false) => 4_000,
         (_, false) => 2_500,
     };
     for _ in 0..n {
         let vi = match profile {
             Profile::Undo => rng.chance(1, 6),
             Profile::Kill => rng.chance(1, 4),
+            Profile::Doc => rng.chance(1, 2),
             _ => rng.chance(2, 5),
         };
         let mut flags = String::new();
         if rng.chance(1, 8) {
             flags.push('t');
         }
-        let pprob = if profile == Profile::Malformed { 4 } else { 10 };
+        let pprob = if profile == Profile::Malformed || profile == Profile::Doc { 4 } else { 10 };
         if rng.chance(1, pprob) {
             flags.push('p');
         }
@@ -1025,6 +1206,7 @@ pub fn gen_profile(ctx: &GenCtx, tag: &str, profile: Profile, sink: &mut dyn FnM
             Profile::Validator | Profile::Complete => 1,
             Profile::Malformed => 2,
             Profile::History | Profile::Search | Profile::Kill | Profile::Undo => 6,
+            Profile::Doc => 8,
         };
         if rng.chance(1, hprob) {
             helper = random_helper(&mut rng, &mut flags, profile);
@@ -1047,8 +1229,9 @@ pub fn gen_profile(ctx: &GenCtx, tag: &str, profile: Profile, sink: &mut dyn FnM
         } else {
             (String::new(), String::new())
         };
+        let binds = if profile == Profile::Doc && rng.chance(1, 5) { doc_binds(&mut rng) } else { "-".to_string() };
         let mut req = format!(
-            "{} {} {} {} {} {} {} {} -",
+            "{} {} {} {} {} {} {} {} {}",
             tag,
             if vi { "v" } else { "e" },
             rng.pick(&[80u16, 80, 20, 10]),
@@ -1056,7 +1239,8 @@ pub fn gen_profile(ctx: &GenCtx, tag: &str, profile: Profile, sink: &mut dyn FnM
             enc_texts(&hist),
             enc_text(&left),
             enc_text(&right),
-            helper
+            helper,
+            binds
         );
         let k = 1 + rng.below(if ctx.thorough { 30 } else { 14 });
         let mut toks: Vec<String> = vec![];
@@ -1084,6 +1268,19 @@ pub fn gen_profile(ctx: &GenCtx, tag: &str, profile: Profile, sink: &mut dyn FnM
             }
             if profile == Profile::Kill && rng.chance(3, 4) {
                 kill_keys(&mut rng, vi, &mut insert_mode, &mut toks);
+                continue;
+            }
+            if profile == Profile::Doc && rng.chance(5, 6) {
+                if binds != "-" && rng.chance(1, 4) {
+                    // a custom-bound key (or its two-key sequence); ESC-glued in vi insert mode it is Alt-<key>
+                    toks.push(rng.pick(&["0f", "1b67", "01", "7a", "0f 61", "0f 0f", "18 62", "0f 62"]).replace(' ', " "));
+                    continue;
+                }
+                if vi {
+                    doc_vi_key(&mut rng, &mut toks, &mut insert_mode);
+                } else {
+                    doc_emacs_key(&mut rng, &mut toks);
+                }
                 continue;
             }
             if profile == Profile::Undo && !vi && rng.chance(4, 5) {
